@@ -21,5 +21,6 @@ RECURSIVE SetToSeq(_)
 SetToSeq(T) == IF T = {} THEN <<>> ELSE LET x == CHOOSE y \in T : TRUE IN <<x>> \o SetToSeq(T \ {x})
 BundleJson(bn) == LET b == Bundles[bn] IN [name |-> bn, cop |-> SetToSeq(b.cop), lic |-> SetToSeq(b.lic), con |-> SetToSeq(b.con),
                                            merge |-> b.merge, skip |-> b.skip]
-Emit == hist # <<>> => PrintT(ToJson([hist |-> [i \in 1..Len(hist) |-> [b |-> BundleJson(hist[i].b), fs |-> SetToSeq(hist[i].fs)]]]))
+Emit == hist # <<>> => PrintT(ToJson([hist |-> [i \in 1..Len(hist) |-> [b |-> BundleJson(hist[i].b), fs |-> SetToSeq(hist[i].fs)]],
+                                        failed |-> SetToSeq(last.failed)]))
 =================================================================================
